@@ -150,6 +150,55 @@ def run(ctx):
                                 "reference_value": str(bad[2]), "closed_form": gr["sols"][idx], "flat_program": r.get("flat_text")},
                           f"E({gname}) of the program below: Polar's closed form gives {bad[1]} at n={bad[0]}, "
                           f"the exact expectation is {bad[2]}\n{text}")
+    # the command line itself: printed special cases + general formula, and --at_n
+    import sympy as _sp
+    cli_sel = [i for i in range(len(progs)) if exact_by_prog.get(i) is not None][:ctx.pick(14, 60)]
+    cli_tasks = [{"kind": "cli_goals", "text": P.prog_text(progs[i][0]), "goals": [gen.goal_text(m) for m in progs[i][1]],
+                  "at_n": 3, "timeout": 150} for i in cli_sel]
+    cli_res = lib.run_tasks(cli_tasks, timeout=150)
+    n_sym = _sp.Symbol("n")
+    cli_ok = 0
+    for i, cr in zip(cli_sel, cli_res):
+        if "error" in cr or not cr.get("printed"):
+            continue
+        p, goals, _ = progs[i]
+        text = P.prog_text(p)
+        ex = exact_by_prog[i]
+        for gi, m in enumerate(goals):
+            gname = gen.goal_text(m)
+            pr = cr["printed"].get(gname)
+            if not pr:
+                continue
+            try:
+                gen_e = _sp.sympify(pr["general"])
+                if any(str(s) not in ("n",) for s in gen_e.free_symbols):
+                    continue
+                bad = None
+                for n in range(N + 1):
+                    val = _sp.sympify(pr["special"][n]) if n < len(pr["special"]) else gen_e.subs(n_sym, n)
+                    val = _sp.nsimplify(_sp.simplify(val), rational=True)
+                    if not val.is_Rational:
+                        continue
+                    if Fraction(int(val.p), int(val.q)) != ex[n][gi]:
+                        bad = (n, str(val), str(ex[n][gi]))
+                        break
+                at = cr["at_n"].get(gname)
+                if bad is None and at is not None:
+                    av = _sp.nsimplify(_sp.sympify(at), rational=True)
+                    if av.is_Rational and Fraction(int(av.p), int(av.q)) != ex[3][gi]:
+                        bad = (3, f"--at_n 3 prints {at}", str(ex[3][gi]))
+            except Exception:
+                continue
+            ctx.coverage["obligations"] += 0
+            if bad:
+                ctx.violation(f"cli-printed:{text}:{gname}",
+                              {"program_text": text, "prog_json": P.to_json(p), "goals_json": [P.to_json(m)], "goal": gname,
+                               "printed": pr, "n": bad[0], "printed_value": bad[1], "reference_value": bad[2]},
+                              f"polar.py prints E({gname}) = {'; '.join(pr['special'] + [pr['general']])}, which gives {bad[1]} at n={bad[0]}; "
+                              f"the exact expectation is {bad[2]}\n{text}")
+            else:
+                cli_ok += 1
+    ctx.coverage["cli_printed_results_agreeing"] = cli_ok
     # source-level end-to-end validator, evaluated by the kernel
     sfiles = [(f"src_{j}", core.SRC_HEADER + f"Eval vm_compute in [{c['term']}].\n") for j, c in enumerate(src_cases)]
     souts = lib.coq_run_many(ctx, sfiles, timeout=240)
